@@ -43,7 +43,7 @@ class C07(Check):
     ASSUMPTIONS = ['timestamps are non-decreasing per key; timeouts are >= 0 (a zero timeout makes every item open a new window, as the statement says)',
                    'closing_mapper returns a bool']
     ANCHORS = ['rxsci/data/time_split.py', 'rxsci/operators/multiplex.py']
-    REQUIRED_TAGS = ['top', 'group', 'active', 'inactive', 'no-timeout', 'closing', 'include', 'exclude', 'datetime', 'equal-timestamps', 'gap=timeout', 'day-scale', 'zero-timeout', 'aware-datetimes-mixed-offsets', 'no-timestamps-closing-mapper-only'] + ['operator-object-used-in-two-pipelines'] + PRELUDE_TAGS + ['prelude:overlap']
+    REQUIRED_TAGS = ['consumer-runs-a-pipeline-built-with-the-same-operator-object', 'top', 'group', 'active', 'inactive', 'no-timeout', 'closing', 'include', 'exclude', 'datetime', 'equal-timestamps', 'gap=timeout', 'day-scale', 'zero-timeout', 'aware-datetimes-mixed-offsets', 'no-timestamps-closing-mapper-only', 'closing-mapper-says-no-with-None-or-empty-string'] + ['operator-object-used-in-two-pipelines'] + ['history-fed-more-than-the-judged-stream'] + PRELUDE_TAGS + ['prelude:overlap']
     REQUIRED_OBSERVED = ['child_lifetimes_checked', 'parent_lifetimes_checked', 'empty_windows_dropped']
 
     def generate(self, rng, tier, shard, nshards):
@@ -90,7 +90,7 @@ class C07(Check):
             for _ in range(rng.choice([0, 1, 4, 12, 30, 60])):
                 t += rng.choice(alpha)
                 items.append(t)
-            cfg = {'active': a, 'inactive': b, 'closing': rng.choice([None, 'modeq:3:0', 'modeq:2:1', 'true', 'modeq:7:0']),
+            cfg = {'active': a, 'inactive': b, 'closing': (None, 'modeq:3:0', 'modeq:2:1', 'true', 'modeq:7:0', 'modeqnone:3:0', 'modeqstr:4:1')[j % 7] if j % 3 else rng.choice([None, 'modeq:3:0', 'modeq:2:1', 'true', 'modeq:7:0']),
                    'include': rng.random() < 0.5, 'time': rng.choice(['id', 'dt', 'dtz'])}
             if cfg['active'] is None and cfg['inactive'] is None and cfg['closing'] and j % 2:
                 cfg['time'] = 'tnone'
@@ -110,6 +110,8 @@ class C07(Check):
             out.tags.append('zero-timeout')       # a timeout of zero is not 'no timeout': every item opens its own window
         if cfg['closing']:
             out.tags += ['closing', 'include' if cfg['include'] else 'exclude']
+        if cfg['closing'] and cfg['closing'].startswith(('modeqnone', 'modeqstr')):
+            out.tags.append('closing-mapper-says-no-with-None-or-empty-string')
         if cfg.get('time') == 'tnone':
             out.tags.append('no-timestamps-closing-mapper-only')
         if cfg.get('time') == 'dtz':
@@ -147,6 +149,9 @@ class C07(Check):
                 out.failures[-1]['detail']['cfg'] = cfg
                 return out
         out.observed['events_logged'] += len(ob.log)
+        if case['parent'] == 'top' and len(items) <= 150 and not out.failures:
+            out.tags.append('consumer-runs-a-pipeline-built-with-the-same-operator-object')
+            windows.nested_consumer(['time_split', cfg, None], items, items[:(len(items) * 2) // 3 + 1], out, 'time_split')
         return out
 
     box_done = 0
